@@ -304,6 +304,12 @@ func replayOne(t *testing.T, f *ev.Failure) bool {
 		var st totStat
 		perr := ev.Guard(func() error { fs = checkTotality(c, &st); return nil })
 		reportAll(t, "totality", c, fs, perr)
+	case "docgrid":
+		var c DocGridCase
+		if err := json.Unmarshal(f.Case, &c); err != nil {
+			t.Fatal(err)
+		}
+		ev.Report(t, f.Unit, c, ev.Guard(func() error { return checkDocGrid(c) }))
 	default:
 		return false
 	}
